@@ -15,12 +15,16 @@ Holes == [kind : {"blackhole"}, dir : {""}, at : {0}, inside : {FALSE}, phase : 
 \* a cut, then the reply of a restarted monitor held at the pause point while a transaction commits: the
 \* interleaving ReadLoop (deferring the notification) before ApplyReply of Reconn.tla, forced on the real client
 Gated == [kind : {"gated"}, dir : {""}, at : {0}, inside : {FALSE}, phase : {"reconnect"}, away : {0}]
-SingleFaultCases == {[methods |-> ms, faults |-> <<f>>, seed |-> 1] : ms \in MethodSeqs, f \in Cuts \cup Holes \cup Gated}
-                    \cup {[methods |-> ms, faults |-> <<g, g>>, seed |-> 3] : ms \in MethodSeqs, g \in Gated}
+SingleFaultCases == {[methods |-> ms, faults |-> <<f>>, seed |-> 1, since |-> FALSE] : ms \in MethodSeqs, f \in Cuts \cup Holes \cup Gated}
+                    \cup {[methods |-> ms, faults |-> <<g, g>>, seed |-> 3, since |-> FALSE] : ms \in MethodSeqs, g \in Gated}
 \* two faults in a row: a sample of the product (first fault x second fault), every method sequence of length 2
-DoubleFaultCases == {[methods |-> ms, faults |-> <<f, g>>, seed |-> 2]
+DoubleFaultCases == {[methods |-> ms, faults |-> <<f, g>>, seed |-> 2, since |-> FALSE]
                        : ms \in [1..2 -> Methods],
                          f \in {c \in Cuts : c.at \in {1, 3} /\ c.away = 2 /\ c.phase = "steady"},
                          g \in {c \in Cuts : c.at = 2 /\ c.away = 3}}
-ASSUME \A c \in SingleFaultCases \cup DoubleFaultCases : PrintT(<<"CASE", ToJson(c)>>)
+\* the same against a server that remembers transaction ids (ServerKnows), for the method sequences with a
+\* monitor_cond_since monitor: every cut and silence, and two faults in a row
+HasSince(ms) == \E i \in DOMAIN ms : ms[i] = "monitor_cond_since"
+SinceCases == {[c EXCEPT !.since = TRUE] : c \in {x \in SingleFaultCases \cup DoubleFaultCases : HasSince(x.methods) /\ Len(x.methods) <= 2}}
+ASSUME \A c \in SingleFaultCases \cup DoubleFaultCases \cup SinceCases : PrintT(<<"CASE", ToJson(c)>>)
 =============================================================================
